@@ -6,6 +6,7 @@ import (
 	"fmt"
 	"io"
 	"io/ioutil"
+	"path/filepath"
 	"reflect"
 	"strings"
 	"sync"
@@ -110,14 +111,19 @@ func (p Program) Build() bigslice.Slice {
 		panic("refeval.Build: invalid program " + p.String())
 	}
 	var s bigslice.Slice
+	// Operators inside a fixed shape have positions -2, -3, ... (see ext.go);
+	// the calls below are in the order of InternalOps.
+	internal := 0
 	op := func(s bigslice.Slice, t Type, o Op) (bigslice.Slice, Type) {
-		return p.buildOp(s, t, o, -1)
+		internal++
+		return p.buildOp(s, t, o, -1, -1-internal)
 	}
+	src := buildSource(p.Src, p.pragmasAt(-1)...)
 	switch p.Shape {
 	case ShapeChain:
-		s = buildSource(p.Src)
+		s = src
 	case ShapeShared, ShapeSharedWriter:
-		base, bt := op(buildSource(p.Src), SourceType(p.Src), Op{Kind: OpMap, Var: MapAdd1})
+		base, bt := op(src, SourceType(p.Src), Op{Kind: OpMap, Var: MapAdd1})
 		if p.Shape == ShapeSharedWriter {
 			base, bt = op(base, bt, Op{Kind: OpWriterFunc})
 		}
@@ -125,7 +131,7 @@ func (p Program) Build() bigslice.Slice {
 		b, _ := op(base, bt, Op{Kind: OpReshard, N: p.N2})
 		s = bigslice.Cogroup(a, b)
 	case ShapeNested:
-		l, lt := op(buildSource(p.Src), SourceType(p.Src), Op{Kind: OpMap, Var: MapKeyMod3})
+		l, lt := op(src, SourceType(p.Src), Op{Kind: OpMap, Var: MapKeyMod3})
 		l, _ = op(l, lt, Op{Kind: OpReduce})
 		r, rt := op(buildSource(p.Src2), SourceType(p.Src2), Op{Kind: OpReshard, N: p.N1})
 		r, _ = op(r, rt, Op{Kind: OpFold})
@@ -134,17 +140,17 @@ func (p Program) Build() bigslice.Slice {
 		m, mt := op(c, ct, Op{Kind: OpMap, Var: MapGroupSum})
 		s, _ = op(m, mt, Op{Kind: OpReduce})
 	case ShapeCogroup3:
-		a := buildSource(p.Src)
+		a := src
 		f, _ := op(a, SourceType(p.Src), Op{Kind: OpFilter, Var: FilterAlt})
 		s = bigslice.Cogroup(a, buildSource(p.Src2), f)
 	}
 	for i, o := range p.Ops {
-		s, t = p.buildOp(s, t, o, i)
+		s, t = p.buildOp(s, t, o, i, i)
 	}
 	return s
 }
 
-func buildSource(src Source) bigslice.Slice {
+func buildSource(src Source, prags ...bigslice.Pragma) bigslice.Slice {
 	rows := SourceRows(src)
 	switch src.Kind {
 	case SrcConst:
@@ -203,14 +209,15 @@ func buildSource(src Source) bigslice.Slice {
 			}
 			return ret(n, nil)
 		})
-		return bigslice.ReaderFunc(src.Shards, read)
+		return bigslice.ReaderFunc(src.Shards, read, prags...)
 	}
 	panic("refeval: source kind")
 }
 
 // buildOp applies one operator. idx is the index in p.Ops (-1 inside fixed
-// shapes), which identifies the recording slot of Scan/WriterFunc.
-func (p Program) buildOp(s bigslice.Slice, t Type, o Op, idx int) (bigslice.Slice, Type) {
+// shapes), which identifies the recording slot of Scan/WriterFunc; pos is the
+// position of ext.go (pragma placement, row counting).
+func (p Program) buildOp(s bigslice.Slice, t Type, o Op, idx, pos int) (bigslice.Slice, Type) {
 	var src2 *Source
 	if o.Kind == OpCogroup && o.Var == CgSecond {
 		src2 = &p.Src2
@@ -222,16 +229,16 @@ func (p Program) buildOp(s bigslice.Slice, t Type, o Op, idx int) (bigslice.Slic
 	in := goTypes(t.Cols)
 	switch o.Kind {
 	case OpMap:
-		return bigslice.Map(s, mkFunc(in, goTypes(out.Cols), func(a []reflect.Value) []reflect.Value {
+		return bigslice.Map(s, p.userFunc(pos, in, goTypes(out.Cols), func(a []reflect.Value) []reflect.Value {
 			return toValues(mapFn(o.Var, toRow(a)))
-		})), out
+		}), p.pragmasAt(pos)...), out
 	case OpFilter:
-		return bigslice.Filter(s, mkFunc(in, []reflect.Type{typBool}, func(a []reflect.Value) []reflect.Value {
+		return bigslice.Filter(s, p.userFunc(pos, in, []reflect.Type{typBool}, func(a []reflect.Value) []reflect.Value {
 			return []reflect.Value{reflect.ValueOf(filterFn(o.Var, toRow(a)))}
-		})), out
+		}), p.pragmasAt(pos)...), out
 	case OpFlatmap:
 		vt := vecTypes(out.Cols)
-		return bigslice.Flatmap(s, mkFunc(in, vt, func(a []reflect.Value) []reflect.Value {
+		return bigslice.Flatmap(s, p.userFunc(pos, in, vt, func(a []reflect.Value) []reflect.Value {
 			rows := flatFn(o.Var, toRow(a))
 			res := make([]reflect.Value, len(vt))
 			for j := range vt {
@@ -241,7 +248,7 @@ func (p Program) buildOp(s bigslice.Slice, t Type, o Op, idx int) (bigslice.Slic
 				}
 			}
 			return res
-		})), out
+		}), p.pragmasAt(pos)...), out
 	case OpFold:
 		fin := append([]reflect.Type{typInt}, in[1:]...)
 		return bigslice.Fold(s, mkFunc(fin, []reflect.Type{typInt}, func(a []reflect.Value) []reflect.Value {
@@ -249,6 +256,11 @@ func (p Program) buildOp(s bigslice.Slice, t Type, o Op, idx int) (bigslice.Slic
 		})), out
 	case OpHead:
 		return bigslice.Head(s, o.N), out
+	case OpCache:
+		if p.CacheDir == "" {
+			panic("refeval.Build: OpCache needs Program.CacheDir")
+		}
+		return bigslice.Cache(context.Background(), s, filepath.Join(p.CacheDir, fmt.Sprintf("cache-op%d", idx))), out
 	case OpReduce, OpPrefixReduce:
 		if o.Kind == OpPrefixReduce {
 			s = bigslice.Prefixed(s, 2)
@@ -414,6 +426,21 @@ type Outcome struct {
 // the result and returns rows and recorded side effects. It does not impose a
 // timeout; wrap it in a watchdog.
 func RunAndScan(ctx context.Context, sess *exec.Session, p Program) (Outcome, error) {
+	return RunWith(ctx, sess, p, RunOpts{})
+}
+
+// RunOpts modifies RunWith.
+type RunOpts struct {
+	// NoScan: only Run, do not read the result (a result with zero columns
+	// cannot be read back on the cluster executor). Outcome.Rows stays empty.
+	NoScan bool
+	// Inspect, if set, is called with the result after the scan (or after Run
+	// failed to scan) and before the result is discarded.
+	Inspect func(*exec.Result)
+}
+
+// RunWith is RunAndScan with options.
+func RunWith(ctx context.Context, sess *exec.Session, p Program, opts RunOpts) (Outcome, error) {
 	t, ok := p.Typecheck()
 	if !ok {
 		return Outcome{}, fmt.Errorf("refeval: ill-typed program %v", p)
@@ -426,7 +453,14 @@ func RunAndScan(ctx context.Context, sess *exec.Session, p Program) (Outcome, er
 		return Outcome{Events: rec.Events()}, fmt.Errorf("run: %v", err)
 	}
 	defer res.Discard(ctx)
+	if opts.Inspect != nil {
+		defer opts.Inspect(res)
+	}
 	out := Outcome{Rows: []Row{}}
+	if opts.NoScan {
+		out.Events = rec.Events()
+		return out, nil
+	}
 	types := goTypes(t.Cols)
 	args := make([]interface{}, len(types))
 	vals := make([]reflect.Value, len(types))
